@@ -49,6 +49,7 @@ pub fn env_outcome(id: &'static str, case: &EnvCase) -> Outcome {
                     ("env_instructions_skipped", f.skipped_instr),
                     ("env_empty_steps", f.empty_steps),
                     ("env_overfull_steps", f.overfull_steps),
+                    ("env_steps_with_exactly_step_size_instructions", f.full_steps),
                     ("env_order_sensitive_batches", f.order_sensitive_batches),
                     ("env_several_instructions_for_one_order", f.same_order_multi_instr),
                     ("env_instruction_for_order_of_same_batch", f.same_batch_target),
